@@ -247,6 +247,81 @@ def run_lines(exe, lines, timeout=1800, args=()):
     return p.returncode, ans, p.stderr
 
 
+STALL_FIRST, STALL_NEXT, MAX_RESTARTS = 150, 30, 6
+
+
+def run_lines_resilient(exe, lines, args=()):
+    """Implementation side. The engine answers line by line (GA_FLUSH); a scenario on which the real crate does not
+    return (no answer within the stall limit) or that kills the process is recorded as `<hang>` / `<crash>` for that
+    scenario alone, and the engine is restarted on the scenarios after it. A changed crate that loops for ever is a
+    finding with a replay, not a check that times out."""
+    import threading, queue, time
+    ans, err_all, rc_last = {}, "", 0
+    pos, restarts, stall = 0, 0, STALL_FIRST
+    env = dict(ENV, GA_FLUSH="1")
+    while pos < len(lines):
+        chunk = lines[pos:]
+        p = subprocess.Popen([exe] + list(args), stdin=subprocess.PIPE, stdout=subprocess.PIPE, stderr=subprocess.PIPE, text=True, env=env)
+        q = queue.Queue()
+
+        def feed(p=p, chunk=chunk):
+            try:
+                p.stdin.write("\n".join(chunk) + "\n")
+                p.stdin.close()
+            except (BrokenPipeError, OSError, ValueError):
+                pass
+
+        def read(p=p, q=q):
+            for l in p.stdout:
+                q.put(l)
+            q.put(None)
+
+        errbuf = []
+
+        def readerr(p=p, errbuf=errbuf):
+            try:
+                errbuf.append(p.stderr.read()[-4000:])
+            except (OSError, ValueError):
+                pass
+
+        ts = [threading.Thread(target=f, daemon=True) for f in (feed, read, readerr)]
+        for t in ts:
+            t.start()
+        got, hung = 0, False
+        while True:
+            try:
+                l = q.get(timeout=stall)
+            except queue.Empty:
+                hung = True
+                p.kill()
+                break
+            if l is None:
+                break
+            if not l.strip():
+                continue
+            seq, _, rest = l.rstrip("\n").partition(" ")
+            ans[seq] = rest
+            got += 1
+        p.wait()
+        for t in ts:
+            t.join(timeout=5)
+        rc_last = p.returncode
+        err_all += "".join(errbuf)[-1000:]
+        if got >= len(chunk) and not hung:
+            break
+        # the first scenario without an answer is the one that hung / crashed
+        seq = chunk[got].split(" ", 1)[0] if got < len(chunk) else None
+        if seq is None:
+            break
+        ans[seq] = ("<hang: no answer within %d s>" % stall if hung else "<crash: engine exited rc=%s %s>" % (p.returncode, "".join(errbuf)[-160:].replace("\n", " "))) + " | orc=" + ("hang" if hung else "crash")
+        pos += got + 1
+        restarts += 1
+        stall = STALL_NEXT
+        if restarts >= MAX_RESTARTS:
+            break
+    return rc_last, ans, err_all
+
+
 def split_orc(ans):
     body, _, orc = ans.partition(" | orc=")
     return body.strip(), (orc.strip() or "ok")
@@ -318,7 +393,7 @@ def run_engine(eng, lines, tag):
         rc_b, out_b = cargo_build([eng.bin], eng.features, eng.release)
         if rc_b != 0:
             return {"build_error": out_b[-2000:], "M": [], "O": [], "n": len(lines), "impl": {}, "model": {}, "nbody": 0}
-        rc_i, impl, err_i = run_lines(bin_path(eng.bin, eng.release), numbered)
+        rc_i, impl, err_i = run_lines_resilient(bin_path(eng.bin, eng.release), numbered)
     model = {}
     body_ans = {}
     nbody = 0
